@@ -6,6 +6,7 @@ import (
 	"fmt"
 	gofs "io/fs"
 	"os"
+	"os/exec"
 	"path/filepath"
 	"strings"
 
@@ -18,7 +19,46 @@ import (
 	"verif/scratch"
 )
 
-func init() { register("C09", runC09, replayC09) }
+func init() {
+	register("C09", runC09, replayC09)
+	Children["c09dot"] = childC09dot
+}
+
+// childC09dot: chdir into the directory and walk it as "." (the working directory is per process): prints the reported
+// paths as JSON.
+func childC09dot(args []string) int {
+	if len(args) < 1 || os.Chdir(args[0]) != nil {
+		return 3
+	}
+	type ent struct{ P, SP, L string }
+	var out []ent
+	for _, root := range []string{".", "./"} {
+		d, err := fsutil.NewFS(root)
+		if err != nil {
+			fmt.Fprintln(os.Stderr, err)
+			return 3
+		}
+		err = d.Walk(context.Background(), "/", func(p string, e gofs.DirEntry, err error) error {
+			if err != nil {
+				return err
+			}
+			fi, err := e.Info()
+			if err != nil {
+				return err
+			}
+			st := fi.Sys().(*types.Stat)
+			out = append(out, ent{p, st.Path, st.Linkname})
+			return nil
+		})
+		if err != nil {
+			fmt.Fprintln(os.Stderr, err)
+			return 3
+		}
+		out = append(out, ent{P: "--"})
+	}
+	json.NewEncoder(os.Stdout).Encode(out)
+	return 0
+}
 
 type c09Case struct {
 	Tree fsmodel.Tree `json:"tree"`
@@ -363,6 +403,62 @@ func judgeC09Raw(c c09Case) (string, string) {
 				}
 			}
 		}
+		// the same directory walked as "." from inside it (send . / walk . in a checkout): only for trees with a top-level
+		// name that begins with a dot, one process per case (the working directory is per process)
+		dotTop := false
+		for _, n := range snap {
+			dotTop = dotTop || (strings.HasPrefix(n.Path, ".") && !strings.Contains(n.Path, "/"))
+		}
+		if dotTop {
+			self, _ := os.Executable()
+			cmd := exec.Command(self, "child", "c09dot", dir)
+			var stderr strings.Builder
+			cmd.Stderr = &stderr
+			b, err := cmd.Output()
+			if err != nil {
+				return "walk-failed", fmt.Sprintf("walking the directory as \".\" from inside it: %v %s", err, firstLine(stderr.String()))
+			}
+			var ents []struct{ P, SP, L string }
+			if json.Unmarshal(b, &ents) != nil {
+				return "infra", "bad child output"
+			}
+			i := 0
+			for _, e := range ents {
+				if e.P == "--" {
+					if i != len(want) {
+						return "dot-root-missing-entry", fmt.Sprintf("walked as \".\": %d entries, walked by its absolute path: %d", i, len(want))
+					}
+					i = 0
+					continue
+				}
+				if i >= len(want) || e.P != want[i].Path || e.SP != want[i].Path || e.L != want[i].Linkname {
+					w := "nothing"
+					if i < len(want) {
+						w = want[i].Path + " -> " + want[i].Linkname
+					}
+					return "dot-root-differs", fmt.Sprintf("walked as \".\" entry #%d is %q (stat path %q, link %q); walked by its absolute path it is %s", i, e.P, e.SP, e.L, w)
+				}
+				i++
+			}
+		}
+		// the caller cancels while the walk is inside the lstat of entry k (where a walk spends its time): the walk then
+		// fails with the context's error, or it had already reported everything - never success with a listing cut short
+		if len(snap) <= 12 {
+			for k := range snap {
+				cctx, cancel := context.WithCancel(ctx)
+				hooked := &infoHookFS{FS: fs, at: k, hook: cancel}
+				ffs, err := fsutil.NewFilterFS(hooked, &fsutil.FilterOpt{ExcludePatterns: []string{"no-such-name-anywhere"}})
+				if err != nil {
+					cancel()
+					return "infra", err.Error()
+				}
+				got, werr := collect(func(fn gofs.WalkDirFunc) error { return ffs.Walk(cctx, "/", fn) })
+				cancel()
+				if werr == nil && len(got) != len(want) {
+					return "cancelled-walk-truncated", fmt.Sprintf("the context was cancelled during the lstat of entry #%d (%s): the filtered walk returned nil after reporting %d of %d entries", k, snap[k].Path, len(got), len(want))
+				}
+			}
+		}
 		// a file gets its second name while the walk is under way: the consumer, handed the file, links it into a
 		// directory that is reported later. The later name shares an inode with an entry already reported, so it
 		// is a link naming it. (Last part of the case: it changes directory times.)
@@ -694,4 +790,36 @@ func judgeC09(c c09Case) (k, m string) {
 		}
 	}()
 	return judgeC09Raw(c)
+}
+
+// infoHookFS runs hook when the Info() of the at-th entry of a walk is asked for (before delegating).
+type infoHookFS struct {
+	fsutil.FS
+	at   int
+	hook func()
+}
+
+type hookedEntry struct {
+	gofs.DirEntry
+	hook func()
+}
+
+func (h hookedEntry) Info() (gofs.FileInfo, error) {
+	if h.hook != nil {
+		h.hook()
+	}
+	return h.DirEntry.Info()
+}
+
+func (f *infoHookFS) Walk(ctx context.Context, target string, fn gofs.WalkDirFunc) error {
+	i := 0
+	return f.FS.Walk(ctx, target, func(p string, e gofs.DirEntry, err error) error {
+		if err == nil && e != nil {
+			if i == f.at {
+				e = hookedEntry{e, f.hook}
+			}
+			i++
+		}
+		return fn(p, e, err)
+	})
 }
